@@ -26,7 +26,7 @@ def maybe_replay(ctx, level):
         ctx.violation(v["key"], v["what"], v.get("replay"))
     common.finish(ctx, level, dict(traces_validated_against_impl=res["scripts"], samples=[d["script"][:2]]))
 
-def run_net(ctx, keys_for_pid, scripts_cap=None):
+def run_net(ctx, keys_for_pid, scripts_cap=None, parts=("honest_exh", "honest_sim", "byz_exh", "byz_sim")):
     quick = ctx.tier == "quick"
     binp = ctx.go_build("./cmd/net")
     runs = []
@@ -37,7 +37,19 @@ def run_net(ctx, keys_for_pid, scripts_cap=None):
     # deeper than the exhaustive bounds (forks older than the sampled heights: honest peer banned; finality on forks)
     runs.append(("net_sim", dict(MaxSteps=30, MaxBlocks=16, MaxHeight=10, Now=24, DumpEvery=1, SkipDiscard="TRUE", SlotSpan=3),
                  dict(workers=1, timeout=900, simulate=200 if quick else 2000, depth=32, seed=ctx.seed), dict(nval=3, pcT=2, now=24)))
-    total = dict(scripts=0, steps=0, forges=0, delivers=0, scripts_with_finality=0, finalized_prefix_pairs_compared=0)
+    # one Byzantine validator of four (weight 1/4 < 1/3): forges on any parent with any claimed maxHeightGenerated, several
+    # blocks per height, announces them in any order and serves their chains; Agreement / TreeSafety must still hold
+    byz = dict(NVal=4, Win=12, InitW="W1111", InitPCT=3, Byz="{4}")
+    hbyz = dict(nval=4, pcT=3, byz=[4])
+    if quick:
+        runs.append(("net_byz_exh", dict(byz, MaxSteps=7, MaxBlocks=6, Now=8, MaxByz=2, DumpEvery=40), dict(workers=12, timeout=900), dict(hbyz, now=8)))
+    else:
+        runs.append(("net_byz_exh", dict(byz, MaxSteps=9, MaxBlocks=7, Now=8, MaxByz=3, DumpEvery=400), dict(workers=14, timeout=3000), dict(hbyz, now=8)))
+    runs.append(("net_byz_sim", dict(byz, MaxSteps=34, MaxBlocks=20, MaxHeight=11, Now=30, MaxByz=5, DumpEvery=1, SkipDiscard="TRUE", SlotSpan=4),
+                 dict(workers=1, timeout=900, simulate=150 if quick else 1500, depth=36, seed=ctx.seed + 11), dict(hbyz, now=30)))
+    part_of = dict(net_exh="honest_exh", net_sim="honest_sim", net_byz_exh="byz_exh", net_byz_sim="byz_sim")
+    runs = [r for r in runs if part_of[r[0]] in parts]
+    total = dict(scripts=0, steps=0, forges=0, delivers=0, byzantine_forges=0, byzantine_delivers=0, scripts_with_finality=0, finalized_prefix_pairs_compared=0)
     branches = {}; syncs = {}
     sample = None
     cap = scripts_cap or (250 if quick else 3000)
@@ -78,13 +90,14 @@ def run_net(ctx, keys_for_pid, scripts_cap=None):
                 ctx.violation(v["key"], v["what"], v.get("replay"))
             else:
                 other.append(v["key"])
-        log("[net] %s: scripts=%d steps=%d forges=%d delivers=%d branches=%s sync=%s finality=%d pairs=%d violations=%s" % (
-            name, res["scripts"], res["steps"], res["forges"], res["delivers"], res.get("branches"), res.get("sync_outcomes"),
+        log("[net] %s: scripts=%d steps=%d forges=%d(byz %d) delivers=%d(byz %d) branches=%s sync=%s finality=%d pairs=%d violations=%s" % (
+            name, res["scripts"], res["steps"], res["forges"], res.get("byzantine_forges", 0), res["delivers"], res.get("byzantine_delivers", 0), res.get("branches"), res.get("sync_outcomes"),
             res["scripts_with_finality"], res["finalized_prefix_pairs_compared"], sorted(set(v["key"] for v in res.get("violations") or []))))
         if other:
             log("[net] note: violations belonging to other properties were observed: %s" % sorted(set(other)))
-    if not ctx.violations and (total["delivers"] < 100 or branches.get("differentchain", 0) < 10 or total["scripts_with_finality"] == 0):
+    need_fin = "honest_sim" in parts
+    if not ctx.violations and (total["delivers"] < 100 or branches.get("differentchain", 0) < 10 or (need_fin and total["scripts_with_finality"] == 0)):
         raise Inconclusive("network scripts did not exercise enough (delivers / syncs / finality): vacuous")
-    return dict(net_scripts=total["scripts"], net_steps=total["steps"], net_forges=total["forges"], net_delivers=total["delivers"],
+    return dict(net_byzantine_blocks=total["byzantine_forges"], net_byzantine_announcements=total["byzantine_delivers"], net_scripts=total["scripts"], net_steps=total["steps"], net_forges=total["forges"], net_delivers=total["delivers"],
                 net_branches=branches, net_sync_outcomes=syncs, net_scripts_with_finality=total["scripts_with_finality"],
                 net_finalized_prefix_pairs_compared=total["finalized_prefix_pairs_compared"], net_sample=(sample or [])[:4])
